@@ -280,9 +280,24 @@ def sim_join(self_, timeout=None):
     sim.block(lambda: t.state == DONE, timeout, why=("join", t.name))
 
 
+def sim_ident(self_):
+    """Thread.ident: None until the thread has been started (tasks never start the real threading.Thread)."""
+    t = getattr(self_, "_sim_task", None)
+    return None if t is None else 10_000 + t.tid
+
+
 def sim_is_alive(self_):
     t = getattr(self_, "_sim_task", None)
     return t is not None and t.state != DONE
+
+
+def _sim_current_thread():
+    """threading.current_thread() inside the library: the BaseThread object of the running task (tasks run on raw
+    _thread threads, so the real function would return a dummy object and `current_thread() is self` would never hold)."""
+    sim = CURRENT[0]
+    if sim is not None and sim.cur is not None and sim.cur.thread_obj is not None:
+        return sim.cur.thread_obj
+    return _real_threading.current_thread()
 
 
 def make_threading_proxy():
@@ -292,8 +307,8 @@ def make_threading_proxy():
     ns.Condition = Condition
     ns.Event = Event
     ns.Thread = _ThreadNS
-    ns.current_thread = _real_threading.current_thread
-    ns.get_ident = _real_threading.get_ident
+    ns.current_thread = _sim_current_thread
+    ns.get_ident = lambda: id(_sim_current_thread())
     return ns
 
 
@@ -349,6 +364,8 @@ def install_base(p: Patcher, modules_threading=(), modules_time=()):
     p.set(wu, "threading", THREADING_PROXY)
     p.set(wu.BaseThread, "join", sim_join)
     p.set(wu.BaseThread, "is_alive", sim_is_alive)
+    p.set(wu.BaseThread, "ident", property(sim_ident))
+    p.set(wu.BaseThread, "native_id", property(sim_ident))
 
 
 # ---------------------------------------------------------------------- line-level pre-emption
